@@ -350,6 +350,63 @@ def run_twin_case(tw, case, rep=None):
     return res
 
 
+def protocol_scenarios(tw, rep):
+    """fixed scenarios the random cases do not reach: EXEC after a WATCH that fails / passes (the outcome of the
+    check is handed to the model as `watchOk`: C08 owns it), an empty frame inside MULTI"""
+    out = {"oracle": [], "disagree": []}
+    m = tw.model
+
+    def step(cli, conn, args, watch_ok=True, names=None, raw=None):
+        if raw is not None:
+            try:
+                cli.send_raw(raw)
+                impl = canon_reply("", cli.read_reply())
+            except (Closed, TimeoutError, ProtocolError, OSError) as e:
+                impl = "closed:" + type(e).__name__
+        else:
+            impl = tw.impl(cli, args, names)
+        code, spec, same = m.frame(conn, args, watch_ok)
+        st = {"text": " ".join(repr(x.decode("latin-1")) for x in args) or "<empty frame>", "impl": impl, "code": code, "spec": spec, "same": same}
+        rep.evaluations += 1
+        if impl != code:
+            out["disagree"].append(st)
+        if impl != spec or not same:
+            out["oracle"].append(dict(st, why="reply or resulting state differs from the prescribed one"))
+        return impl
+
+    for touched in (True, False):
+        tw.fresh()
+        cid = tw.cid
+        step(tw.a, cid, [b"SET", b"k", b"1"])
+        step(tw.a, cid, [b"WATCH", b"k"])
+        if touched:
+            step(tw.b, 9001, [b"SET", b"k", b"2"])
+        step(tw.a, cid, [b"MULTI"])
+        step(tw.a, cid, [b"SET", b"j", b"1"])
+        step(tw.a, cid, [b"INCR", b"k"])
+        r = step(tw.a, cid, [b"EXEC"], watch_ok=not touched, names=["SET", "INCR"])
+        rep.nontrivial(("scenario", "watch", touched, r))
+        want = "( na )" if touched else "( a ( s 4f4b ) ( i 2 ) )"
+        if r != want:
+            out["oracle"].append({"why": "EXEC after WATCH (%s): expected %s" % ("key changed" if touched else "key untouched", want), "got": r})
+        da, dm = dump_db(tw.b, 0), m.dump(0)
+        if da != dm:
+            out["disagree"].append({"what": "dump after EXEC with WATCH", "impl": da, "code": dm})
+        r = step(tw.a, cid, [b"EXEC"])
+        if r != "( e )":
+            out["oracle"].append({"why": "transaction state not cleared by an EXEC whose WATCH check failed", "got": r})
+    tw.fresh()
+    cid = tw.cid
+    step(tw.a, cid, [b"MULTI"])
+    r = step(tw.a, cid, [], raw=b"*0\r\n")
+    rep.nontrivial(("scenario", "empty-frame", r))
+    step(tw.a, cid, [b"SET", b"x", b"1"])
+    r = step(tw.a, cid, [b"EXEC"], names=["SET"])
+    if r != "( a ( s 4f4b ) )":
+        out["oracle"].append({"why": "an empty frame inside MULTI must not be queued", "got": r})
+    return out
+
+
 def gen_mode(r):
     k = r.below(100)
     end = "exec" if k < 66 else ("discard" if k < 80 else ("disconnect" if k < 94 else "quit"))
@@ -745,6 +802,12 @@ def main(tier, seed):
             elif res["disagree"]:
                 disagreements.append({"case": case_json(case), "first": res["disagree"][0], "with_oracle_failure": True})
 
+        ps = protocol_scenarios(tw, rep)
+        if ps["oracle"]:
+            new_fail.append(("protocol scenario: %s" % ps["oracle"][0]["why"], {"kind": "scenario"}, ps))
+        if ps["disagree"]:
+            disagreements.append({"case": {"kind": "scenario"}, "first": ps["disagree"][0], "with_oracle_failure": bool(ps["oracle"])})
+
         # ---------------- (ii) interleaved connections
         n_il = 150 if tier == "quick" else 4000
         for i in range(n_il):
@@ -909,6 +972,17 @@ def replay(path):
             print("VIOLATION property=C07 replay=%s" % path)
             return 1
         print("OK (the property's oracle holds on this replay)" if not orc else "KNOWN-FINDING: property=C07 %s" % findings["select-in-exec"]["id"])
+        return 0
+    if kind == "scenario":
+        tw = Twin(rep)
+        try:
+            ps = protocol_scenarios(tw, rep)
+        finally:
+            tw.close()
+        print(json.dumps(ps, indent=1))
+        if ps["oracle"]:
+            print("VIOLATION property=C07 replay=%s" % path)
+            return 1
         return 0
     if kind == "witness":
         w = WITNESSES[rp["shape"]]()
